@@ -209,6 +209,9 @@ def rand_universe(rng, o=None, uid=0):
                     f[1].pop('min_occurs', None) if f[1].get('min_occurs') else None
                     for inner in (f[1], f[1].get('array') or {}, f[1].get('seq') or {}):
                         (inner.get('facets') or {}).pop('default', None)     # a default would make an unset choice member appear
+        if getattr(o, 'self_refs', False) and not has_xmldata and rng.random() < .3:
+            # a class that contains itself (a linked list / a tree): an optional member, or an array, of its own type
+            fields.append(['next%d' % i, {'ref': name}] if rng.random() < .6 else ['kids%d' % i, {'array': {'ref': name}}])
         if getattr(o, 'memberless_subclasses', False) and base is not None and rng.random() < .4:
             fields = []          # a subclass that only inherits
         ns = nss[0] if base is None else next(t['ns'] for t in types if t['name'] == base)
@@ -340,6 +343,10 @@ class Built(object):
                 e = self.enums[t['name']] = Enum(*t['enum'], type_name=t['name'])
             return e.customize(**kw) if kw else e
         if 'ref' in t:
+            if t['ref'] not in self.classes:
+                # the class that is being declared: a member of its own type
+                from spyne.model.complex import SelfReference
+                return SelfReference.customize(**kw) if kw else SelfReference
             c = self.classes[t['ref']]
             return c.customize(**kw) if kw else c
         if 'array' in t:
@@ -724,6 +731,9 @@ def gen_value(rng, ir, t, depth=3, top=False, alphabet='xml', subclass_ok=False)
         for fn, ft in all_fields(ir, name):
             if 'choice' in ft and chosen[ft['choice']] != fn:
                 continue
+            rc_ = ft.get('ref') or (ft.get('array') or {}).get('ref') or (ft.get('seq') or {}).get('ref')
+            if depth <= 0 and rc_ is not None and _is_sub(ir, name, rc_):
+                continue        # a member of the object's own class (or of an ancestor): the chain ends here
             v = gen_value(rng, ir, ft, depth - 1, alphabet=alphabet, subclass_ok=subclass_ok)
             if v is not None:
                 # aliasing: two members of the same declared class may refer to one and the same object
